@@ -378,19 +378,48 @@ def judge_corrupt(case, impl):
 
 # ------------------------------------------------------------------ C02: ill-typed constructor arguments
 
-CTOR_BAD = [5, 2.5, None, True, ["www.example.com"], {"host": "x"}, ("a", "b"), object, b"a.com", "n/a", "", -1, [], {}]
+CTOR_BAD = [5, 2.5, None, True, ["www.example.com"], {"host": "x"}, ("a", "b"), object, b"a.com", "n/a", "", -1, [], {},
+            # well-typed but ill-formed strings (each is refused by at least one of the String subclasses below)
+            "not-a-date", "999.1.1.1", "{broken json", "toolong", "-bad-.host", "25:61:00", "2020-13-45", "1.2.3", "a b"]
+
+
+def _ctor_leaves():
+    from typedpy import JSONString, SizedString
+    extra = {
+        "jsonstring": (lambda: JSONString(), ['{"a": 1}', "[1, 2]"], True),
+        "sizedstring": (lambda: SizedString(maxlen=3), ["ab", "abc"], True),
+        "string-bounded": (lambda: String(minLength=2, maxLength=4, pattern="^[a-z]+$"), ["ab", "abcd"], True),
+        "integer-bounded": (lambda: Integer(minimum=0, maximum=9), [0, 9], True),
+    }
+    return {**LEAVES, **extra}
+
+
+CTOR_LEAVES = None
+
+
+def ctor_leaves():
+    global CTOR_LEAVES
+    if CTOR_LEAVES is None:
+        CTOR_LEAVES = _ctor_leaves()
+    return CTOR_LEAVES
 CTOR_WRAPS = ["bare", "optional", "array", "deque", "set", "map", "map-key", "tuple2", "anyof-then-int", "array-of-optional"]
 
 
 def _ctor_field(leaf, wrap):
     if wrap == "map-key":
-        return Map[LEAVES[leaf][0](), Integer()]
-    return build_field(leaf, wrap)
+        return Map[ctor_leaves()[leaf][0](), Integer()]
+    saved = dict(LEAVES)
+    LEAVES.update(ctor_leaves())
+    try:
+        return build_field(leaf, wrap)
+    finally:
+        LEAVES.clear()
+        LEAVES.update(saved)
 
 
 def _ctor_value(leaf, wrap, bad):
     """a value of the wrapped field with ONE leaf position holding `bad` (next to a valid leaf where there is room)"""
-    good = load(LEAVES[leaf][1][-1])
+    good = load(ctor_leaves()[leaf][1][-1])
     try:
         hash(bad)
         hashable = True
@@ -418,7 +447,7 @@ def _ctor_value(leaf, wrap, bad):
 
 def directed_ctor_cases():
     out = []
-    for leaf in sorted(LEAVES):
+    for leaf in sorted(ctor_leaves()):
         for wrap in CTOR_WRAPS:
             for bi in range(len(CTOR_BAD)):
                 out.append({"suite": "extras-ctor", "leaf": leaf, "wrap": wrap, "bad": bi})
@@ -435,7 +464,13 @@ def run_ctor(case):
         return {"skip": f"class: {type(e).__name__}: {e}"[:200]}
     if case["bad"] is None:
         picks = [1, 1]       # (not the zero member of a Flag class: Python does not list it among the members)
-        v = build_value(leaf, wrap, picks) if wrap != "map-key" else {load(LEAVES[leaf][1][-1]): 1}
+        saved = dict(LEAVES)
+        LEAVES.update(ctor_leaves())
+        try:
+            v = build_value(leaf, wrap, picks) if wrap != "map-key" else {load(LEAVES[leaf][1][-1]): 1}
+        finally:
+            LEAVES.clear()
+            LEAVES.update(saved)
         if wrap == "anyof-then-int":
             v = 3          # the value of the LATER option: must be accepted
         res["control"] = True
@@ -444,6 +479,23 @@ def run_ctor(case):
         if v is None and wrap in ("set", "map-key"):
             return {"skip": "unhashable element cannot be put into the argument"}
     res["value"] = repr(v)[:200]
+    if case["bad"] is not None and wrap not in ("bare", "anyof-then-int"):
+        # what the bare field says about the same leaf value (the wrapped position must decide alike)
+        try:
+            bare_cls = type("B", (Structure,), {"f": ctor_leaves()[leaf][0](), "_required": []})
+            bad = CTOR_BAD[case["bad"]]
+            if bad is None:
+                res["bare"] = "n/a"
+            else:
+                try:
+                    bare_cls(f=bad)
+                    res["bare"] = "accepted"
+                except (TypeError, ValueError):
+                    res["bare"] = "rejected"
+                except Exception:
+                    res["bare"] = "n/a"
+        except Exception:
+            res["bare"] = "n/a"
     try:
         x = cls(f=v)
         res["out"] = "accepted"
@@ -464,4 +516,10 @@ def judge_ctor(case, impl):
                  f"constructor rejected f={impl['value']} with {impl['exc']} ({impl['msg']}) instead of TypeError/ValueError")]
     if impl.get("control") and impl["out"] == "rejected":
         return [(f"extras:rejects-valid:ctor:{impl['site']}", f"constructor rejected the valid value f={impl['value']}: {impl['exc']}: {impl['msg']}")]
+    if impl.get("bare") == "rejected" and impl["out"] == "accepted":
+        return [(f"extras:element-not-validated:ctor:{impl['site']}",
+                 f"the bare field rejects the leaf value but it is accepted inside f={impl['value']} (stored {impl.get('stored')})")]
+    if impl.get("bare") == "accepted" and impl["out"] == "rejected" and case["wrap"] not in ("set", "map-key"):
+        return [(f"extras:element-over-rejected:ctor:{impl['site']}",
+                 f"the bare field accepts the leaf value but it is rejected inside f={impl['value']}: {impl.get('exc')}: {impl.get('msg')}")]
     return []
